@@ -545,6 +545,12 @@ func (x *TopicsIndex) scanMessages(filter string, d int, n *particle, pks []pack
 
 	key, hasNext := isolateParticle(filter, d)
 	if key == "+" || key == "#" || d == -1 {
+		if key == "#" && d == strings.Count(filter, "/") && n.retainPath != "" {
+			if pk, ok := x.Retained.Get(n.retainPath); ok { // filter/# also matches filter as per 4.7.1.2
+				pks = append(pks, pk)
+			}
+		}
+
 		for _, adjacent := range n.particles.getAll() {
 			if d == 0 && adjacent.key == SysPrefix {
 				continue
